@@ -89,4 +89,41 @@ partial def nodeOfJson (j : Json) : Except String PNode := do
   | "E" => pure .empty
   | other => throw s!"unsupported node kind {other}"
 
+/-! weaker comparisons used to delimit known-finding classes -/
+
+/-- rendering with the two operands of every combination in sorted order (equality modulo
+    commutation of operands) -/
+partial def showNodeSorted : PNode → String
+  | .comb op sl sr m p l r =>
+    let a := showNodeSorted l
+    let b := showNodeSorted r
+    let (x, y) := if a ≤ b then (a, b) else (b, a)
+    s!"({String.ofList op}" ++ showStrs "sl" sl ++ showStrs "sr" sr ++ showMeta m ++ showPriv p ++ " " ++ x ++ " " ++ y ++ ")"
+  | .stmt m fs => "(S" ++ showMeta m ++ " {" ++ " ".intercalate (fs.map fun (i, n) => s!"{fieldNames.getD i "?"}={showNodeSorted n}") ++ "})"
+  | .pairs m ns => "(P" ++ showMeta m ++ " " ++ " ".intercalate (ns.map showNodeSorted) ++ ")"
+  | n => showNode n
+
+/-- leaf texts of a tree (values only, private nodes not included), nested statements included -/
+partial def leafTextsOf : PNode → List String
+  | .leaf t _ _ _ _ => [String.ofList t]
+  | .comb _ _ _ _ _ l r => leafTextsOf l ++ leafTextsOf r
+  | .stmt _ fs => fs.flatMap (fun p => leafTextsOf p.2)
+  | .pairs _ ns => ns.flatMap leafTextsOf
+  | .empty => []
+
+/-- "value -> private nodes" for every value that carries private nodes -/
+partial def privSigOf : PNode → List String
+  | .leaf t _ _ _ p => if p.isEmpty then [] else [s!"{String.ofList t} -> " ++ " ".intercalate (p.map showNode)]
+  | .comb _ _ _ _ _ l r => privSigOf l ++ privSigOf r
+  | .stmt _ fs => fs.flatMap (fun p => privSigOf p.2)
+  | .pairs _ ns => ns.flatMap privSigOf
+  | .empty => []
+
+partial def privTextsOf : PNode → List String
+  | .leaf _ _ _ _ p => p.flatMap leafTextsOf
+  | .comb _ _ _ _ _ l r => privTextsOf l ++ privTextsOf r
+  | .stmt _ fs => fs.flatMap (fun p => privTextsOf p.2)
+  | .pairs _ ns => ns.flatMap privTextsOf
+  | .empty => []
+
 end Drv
